@@ -1,5 +1,6 @@
 mod alloc;
 mod auth;
+mod auth_retry;
 mod autoalloc;
 mod bootconf;
 mod checks;
